@@ -108,6 +108,19 @@ ImportNeverDangling == \A tab \in Tables : LET o == OrderKeys(tab) IN
    /\ {o[i] : i \in DOMAIN o} = {tab[i].key : i \in DOMAIN tab} /\ Len(o) = Len(tab)
    /\ \A i \in DOMAIN o : \A d \in Deps(RowOf(tab, o[i])) : InM(d) => \E j \in 1..(i - 1) : o[j] = d \/ d = o[i]
 
+\* tables realised as programs by the replay: every insertion order of the two generic classes and two functions whose
+\* parameter type is the row's type with its arguments (C1[C2], list[C2[int]], ...); int takes no arguments, list takes one
+WellFormedTree(t) == /\ (t.ty = "X#int" => t.kids = <<>>) /\ (t.ty = "X#list" => Len(t.kids) = 1)
+                     /\ \A i \in DOMAIN t.kids : (t.kids[i].ty = "X#int" => t.kids[i].kids = <<>>) /\ (t.kids[i].ty = "X#list" => FALSE)
+WellFormedRow(r) == /\ (r.types = "X#int" => r.attrs = <<>>) /\ (r.types = "X#list" => Len(r.attrs) = 1)
+                    /\ \A i \in DOMAIN r.attrs : WellFormedTree(r.attrs[i])
+MentionsClass(r) == r.types \in ClassKeys \/ \E i \in DOMAIN r.attrs : TysOf(r.attrs[i]) \cap ClassKeys # {}
+ReplayTables == {[i \in 1..4 |-> IF p[i] \in ClassKeys THEN ClassRow(p[i]) ELSE (IF p[i] = "M#v1" THEN r1 ELSE r2)] :
+                   p \in Perms(ClassKeys \cup VarKeys),
+                   r1 \in {r \in VarRows("M#v1") : WellFormedRow(r) /\ MentionsClass(r)},
+                   r2 \in {[key |-> "M#v2", kind |-> "var", types |-> "M#C2", attrs |-> <<[ty |-> "M#C1", kids |-> <<>>]>>, via |-> "M#C2"]}}
+EmitTables == \A tab \in ReplayTables : PrintT("TABLE " \o ToJson([rows |-> tab, order |-> OrderKeys(tab)]))
+
 RECURSIVE NodesOf(_), NodesOfForest(_)
 NodesOfForest(f) == IF f = <<>> THEN 0 ELSE NodesOf(Head(f)) + NodesOfForest(Tail(f))
 NodesOf(t) == 1 + NodesOfForest(t.kids)
